@@ -235,7 +235,7 @@ ADDENDA = {
         "and the `write` stream (key signature events, also several at tick 0).",
  'C17': " Also runs the `conv` stream (relative, parallel and enharmonic key changes in one piece).",
  'C14': " net_rotation: inside any command, a dominants followed by b subdominants may be replaced by (a + 11b) mod 12 dominants, for all a, b (non-empty remainder)." + IO + " Stream `keyconv`: `crd info key conv` through the binary, commands of up to 100,000 (131,000) letters incl. 65,535..65,537, every third case via -o onto an existing file.",
- 'C15': " Stream `cdescribe`: `crd info chord describe` through the binary with user attributes/chords (compound intervals before and after simple ones of the "
+ 'C15': " Interval sizes also for 2^k-1, 2^k, 2^k+1 (k = 8..62), powers of ten and random numbers up to 5.3e18. Stream `cdescribe` (a fifth of the roots written with the Unicode signs; found D25, fixed in 2bdb0ee): `crd info chord describe` through the binary with user attributes/chords (compound intervals before and after simple ones of the "
         "same class, repeated intervals, attribute files also written without quotes), each interval compared with the model and with `info attr describe` alone.",
  'C16': " last_definition_wins / user_takes_over / builtin_name_untouched: in every accepted dictionary the chord found under a name is the last entry of "
         "(built-ins, then the user's chords) whose display symbol or long name is that name. Fixed families: user chords whose long name is another chord's symbol (or whose symbol is another chord's long name), alone, with a child, defined after the child.",
